@@ -179,26 +179,25 @@ ob("crypt_key_len", ["C06"], "crypt.rs", unwind=34, functions=["crypt::Decoder::
    bound="V2/AESV2 with key size 1..=16, AESV3 with key size 32, every key byte")
 ob("crypt_aesv3_short", ["C06", "C14"], "crypt.rs", unwind=34, cuts=X1_ERR, stubs=[FMT_STUB], timeout=900,
    functions=["crypt::Decoder::decrypt"], bound="AESV3, data of 1..=15 bytes: error, no panic")
-ob("crypt_exemptions", ["C06"], "crypt.rs", unwind=20, cuts=X1_ERR, stubs=[FMT_STUB, MD5_STUB, RC4_STUB], timeout=900,
+ob("crypt_exemptions", ["C06"], "crypt.rs", unwind=50, cuts=X1_ERR, stubs=[FMT_STUB, MD5_STUB, RC4_STUB], timeout=900,
    functions=["crypt::Decoder::decrypt"],
    bound="every (object, /Encrypt ref, metadata ref, EncryptMetadata flag) combination, data length 0..=2")
-ob("crypt_rc4_new_total", ["C06", "C14"], "crypt.rs", unwind=18, unwindset=[(r"^crypt::Rc4::new$", 0, 257), (r"^crypt::Rc4::new$", 1, 257)],
-   timeout=1200, functions=["crypt::Rc4::new", "crypt::Rc4::encrypt", "crypt::Rc4::next"], bound="key lengths 1..=16, every key byte")
 
 # ---------------------------------------------------------------------------------------------------------------------
 # object/types.rs: C07 (+ C14 hostile counts / cycles)
 # ---------------------------------------------------------------------------------------------------------------------
 RS_STUB = "std::hash::RandomState::new -> fixed keys (X3)"
 PGFN = ["object::types::PageTree::page", "object::types::PageTree::page_limited"]
-X1_PAGE = X1_ALL
-for h, t, uw in [("types_page_flat2", "quick", 5), ("types_page_nested", "quick", 5), ("types_page_empty_mid", "quick", 6),
-                 ("types_page_bushy", "quick", 13), ("types_page_chain4", "quick", 8), ("types_page_chain13", "quick", 18),
-                 ("types_page_empty", "quick", 4)]:
-    ob(h, ["C07"], "types.rs", unwind=uw, cuts=X1_PAGE, stubs=[FMT_STUB, RS_STUB], tier=t, timeout=1200, functions=PGFN,
+X1_PAGE = X1_ALL + ["object::types::PagesNode", "object::types::Page", "object::types::PageTree", "object::types::Resources",
+                    "object::types::PagesRc", "object::RcRef<object::types::PagesNode>"]
+for h, t, uw in [("types_page_flat2", "quick", 7), ("types_page_nested", "quick", 9), ("types_page_empty_mid", "quick", 10),
+                 ("types_page_bushy", "quick", 15), ("types_page_chain4", "quick", 10), ("types_page_chain13", "quick", 19),
+                 ("types_page_empty", "quick", 5), ("types_page_kids_eq_count", "quick", 10)]:
+    ob(h, ["C07"], "types.rs", unwind=uw, cuts=X1_PAGE, stubs=[FMT_STUB, RS_STUB], tier=t, timeout=2400, mem_gb=12, functions=PGFN,
        bound="one concrete tree shape (%s) with accurate counts, every page index 0..=count+2" % h[11:])
-ob("types_page_descent_counts", ["C07"], "types.rs", unwind=6, cuts=X1_PAGE, stubs=[FMT_STUB, RS_STUB], timeout=1200, functions=PGFN,
+ob("types_page_descent_counts", ["C07"], "types.rs", unwind=10, cuts=X1_PAGE, stubs=[FMT_STUB, RS_STUB], timeout=1200, functions=PGFN,
    bound="root with 3 tree kids, every (c1,c2,c3) in u32^3 with c1+c2+c3 <= u32::MAX, every u32 page index")
-ob("types_page_hostile_counts", ["C14"], "types.rs", unwind=6, cuts=X1_PAGE, stubs=[FMT_STUB, RS_STUB], timeout=1200, functions=PGFN,
+ob("types_page_hostile_counts", ["C14"], "types.rs", unwind=10, cuts=X1_PAGE, stubs=[FMT_STUB, RS_STUB], timeout=1200, functions=PGFN,
    bound="same shape, ARBITRARY /Count values (incl. overflowing sums): no panic")
 ob("types_page_self_cycle", ["C14"], "types.rs", unwind=19, cuts=X1_PAGE, stubs=[FMT_STUB, RS_STUB], timeout=1200, functions=PGFN,
    bound="page tree whose only kid is itself, every count and index: error within the depth budget (recursion unwinding assertion)",
@@ -211,8 +210,21 @@ ob("types_inherit_resources", ["C07"], "types.rs", unwind=7, cuts=X1_PAGE, stubs
    bound="2 ancestor levels + page, every presence pattern of Resources (2^3)")
 
 # ---------------------------------------------------------------------------------------------------------------------
+# content.rs: C08 (operator table through the real dispatch OpBuilder::add); harness names are read from the harness file
+# ---------------------------------------------------------------------------------------------------------------------
+import os as _os, re as _re
+II_STUB = "content::inline_image -> Err (X8: BI..ID..EI is outside the claim; avoids a Kani compiler ICE)"
+_src = open(_os.path.join(_os.path.dirname(_os.path.abspath(__file__)), "content.rs")).read()
+CONTENT_OPS = _re.findall(r"^(?:harness|nullary|unary_num|unary_name)!\((content_op_\w+),", _src, _re.M)
+for h in CONTENT_OPS:
+    ob(h, ["C08"], "content.rs", unwind=8, cuts=X1_ALL, stubs=[FMT_STUB, II_STUB], timeout=900, functions=["content::OpBuilder::add"],
+       bound="operator keyword(s) %s with well-formed operands; every finite f32 / every i32 numeric operand" % h[11:])
+
+# ---------------------------------------------------------------------------------------------------------------------
 # parser/mod.rs (experimental: one level of the object parser)
 # ---------------------------------------------------------------------------------------------------------------------
+ob("typesprobe_descent", ["X98"], "types_probe.rs", unwind=4, cuts=X1_ERR, timeout=300, functions=[], bound="probe")
+ob("typesprobe_descent_b", ["X97"], "types_probe.rs", harness="typesprobe_descent", unwind=4, cuts=X1_ALL, timeout=300, functions=[], bound="probe")
 PARSER_GUARDS = [r"^parser::parse_with_lexer_ctx::<", r"^parser::parse_dictionary_object::<"]
 for l in (1, 2):
     ob("parser_scalar_total_l%d" % l, ["X99"], "parser.rs", unwind=l + 2, cuts=X1_ALL, guards=PARSER_GUARDS,
